@@ -115,7 +115,14 @@ type NCase struct {
 	Addr   string `json:"addr"`
 	Mask   uint64 `json:"mask"`
 	Ext    string `json:"ext"`
+	// Before is parsed (and usually refused) right before the judged address: naming must not
+	// depend on what the parser saw earlier.
+	Before string `json:"before,omitempty"`
 }
+
+// refused and odd spellings a client may send before a good one
+var beforePool = []string{"bob..smith@example.com", "a b@x.test", `"unterminated@x.test`, "trailing.@x.test", ".lead@x.test", "x@", "a@@b.test",
+	"<>", `a"b@x.test`, "abc.def..ghi@a.test", "tag+.@a.test", `q\@`, "", "toolong" + strings.Repeat("x", 70) + "@a.test", "ok@a.test", "UP+ext@A.TEST"}
 
 func namingOf(s string) config.Root {
 	switch s {
@@ -129,9 +136,16 @@ func namingOf(s string) config.Root {
 
 // checkNaming applies relations (i)-(iv) to one accepted address; name is the server's
 // naming function, accepts its RCPT-time parser.
-func checkNaming(o *hx.Outcome, naming, addr string, mask uint64, ext string) (accepted bool) {
+func checkNaming(o *hx.Outcome, naming, addr string, mask uint64, ext string, before string) (accepted bool) {
 	root := namingOf(naming)
 	ap := &policy.Addressing{Config: &root}
+	// pre parses the "before" address (usually refused) ahead of each judged call
+	pre := func() {
+		if before != "" {
+			_, _ = ap.ExtractMailbox(before)
+		}
+	}
+	pre()
 	rcpt, err := ap.NewRecipient(addr)
 	if err != nil {
 		return false
@@ -142,15 +156,19 @@ func checkNaming(o *hx.Outcome, naming, addr string, mask uint64, ext string) (a
 		o.Failf(pid+":empty-name", "%s: RCPT accepts the address but its mailbox name is empty", tag)
 		return true
 	}
-	if n2, err := ap.ExtractMailbox(addr); err != nil || n2 != name {
+	pre()
+	n2, err := ap.ExtractMailbox(addr)
+	if err != nil || n2 != name {
 		o.Failf(pid+":read-name-differs", "%s: delivery name %q but read interfaces compute %q (err %v)", tag, name, n2, err)
 	}
 	// (ii) fixed point: asking for the mailbox by its own name reaches it
+	pre()
 	if n2, err := ap.ExtractMailbox(name); err != nil || n2 != name {
 		o.Failf(pid+":not-fixed-point", "%s: name %q maps to %q (err %v) when looked up by name", tag, name, n2, err)
 	}
 	// (iii) letter case
 	re := hx.ReCase(addr, mask)
+	pre()
 	if r2, err := ap.NewRecipient(re); err == nil && r2.Mailbox != name {
 		o.Failf(pid+":case-dependent", "%s -> %q but re-cased <%s> -> %q", tag, name, re, r2.Mailbox)
 	}
@@ -194,11 +212,20 @@ var propNaming = hx.Prop[NCase]{
 			Addr:   addrGen.Draw(t, "addr"),
 			Mask:   rapid.Uint64().Draw(t, "mask"),
 			Ext:    rapid.SampledFrom([]string{"x", "Tag", "a.b", "", "1+2"}).Draw(t, "ext"),
+			Before: rapid.SampledFrom(append([]string{"", "", ""}, beforePool...)).Draw(t, "before"),
 		}
 	},
 	Run: func(c NCase) *hx.Outcome {
 		o := &hx.Outcome{}
-		if checkNaming(o, c.Naming, c.Addr, c.Mask, c.Ext) {
+		if c.Before != "" {
+			root := namingOf(c.Naming)
+			ap := &policy.Addressing{Config: &root}
+			_, _ = ap.NewRecipient(c.Before)
+			_, _ = ap.ExtractMailbox(c.Before)
+			_, _ = ap.ParseOrigin(c.Before)
+			o.Class("another address parsed first")
+		}
+		if checkNaming(o, c.Naming, c.Addr, c.Mask, c.Ext, c.Before) {
 			o.Class("accepted by RCPT")
 			o.NonTrivial = nontrivialAddr(c.Addr)
 		} else {
